@@ -68,7 +68,8 @@ func resolveComputedFields(env *Environment, errorSink *validation.ErrorSink) *E
 			}
 
 			if TypesEqual(innerType, t.Type) {
-				return t
+				// a cast to the expression's own type is not a conversion; the generators only convert between primitives
+				return t.Expression
 			}
 
 			innerTypeKind, innerTypeIsPrimitive := GetKindIfPrimitive(innerType)
